@@ -341,20 +341,22 @@ func parseAux(aux []byte) ([]sam.Aux, error) {
 		switch j := jumps[t]; {
 		case j > 0:
 			j += 3
+			if i+j > len(aux) {
+				return nil, errors.New("bam: truncated aux data")
+			}
 			aa = append(aa, sam.Aux(aux[i:i+j:i+j]))
 			i += j
 		case j < 0:
 			switch t {
 			case 'Z', 'H':
-				j := bytes.IndexByte(aux[i:], 0)
+				// The value starts after the tag and type bytes.
+				j := bytes.IndexByte(aux[i+3:], 0)
 				if j == -1 {
 					return nil, errors.New("bam: invalid zero terminated data: no zero")
 				}
+				j += 3
 				if t == 'H' {
 					// BAM holds the hex digits, sam.Aux the decoded bytes.
-					if j < 3 {
-						return nil, errors.New("bam: invalid hex string data")
-					}
 					a := make(sam.Aux, 3+hex.DecodedLen(j-3))
 					copy(a, aux[i:i+3])
 					_, err := hex.Decode(a[3:], aux[i+3:i+j])
@@ -367,6 +369,9 @@ func parseAux(aux []byte) ([]sam.Aux, error) {
 				}
 				i += j + 1
 			case 'B':
+				if i+8 > len(aux) {
+					return nil, errors.New("bam: truncated aux data")
+				}
 				length := binary.LittleEndian.Uint32(aux[i+4 : i+8])
 				j = int(length)*jumps[aux[i+3]] + int(unsafe.Sizeof(length)) + 4
 				if j < 0 || i+j < 0 || i+j > len(aux) {
